@@ -1,0 +1,27 @@
+//! Verification hook (compiled only with `--cfg engeom_verif`): a thread-local sink into which
+//! instrumented code emits one JSON line per protocol step. It has no effect on behaviour.
+
+use std::cell::RefCell;
+
+thread_local! {
+    static SINK: RefCell<Vec<String>> = const { RefCell::new(Vec::new()) };
+}
+
+/// Append one event line to the current thread's sink.
+pub fn emit(line: String) {
+    SINK.with(|s| s.borrow_mut().push(line));
+}
+
+/// Take (and clear) everything emitted on the current thread so far.
+pub fn take() -> Vec<String> {
+    SINK.with(|s| std::mem::take(&mut *s.borrow_mut()))
+}
+
+/// Format a slice of floats as a JSON array (17 significant digits round-trip exactly).
+pub fn floats(v: &[f64]) -> String {
+    let items: Vec<String> = v
+        .iter()
+        .map(|x| if x.is_finite() { format!("{:e}", x) } else { "null".to_string() })
+        .collect();
+    format!("[{}]", items.join(","))
+}
